@@ -329,7 +329,7 @@ func c08Plan(c *Ctx, planNo int, T time.Duration) {
 	idCounter.Store(uint32(planNo) << 16)
 	var wg sync.WaitGroup
 	startGate := make(chan struct{})
-	var inflight, maxInflight atomic.Int64
+	var inflight, maxInflight, setAddressCalls atomic.Int64
 	for g := 0; g < N; g++ {
 		wg.Add(1)
 		go func(g int) {
@@ -339,6 +339,11 @@ func c08Plan(c *Ctx, planNo int, T time.Duration) {
 			for k := 0; k < K; k++ {
 				eo := echoOps[rr.Pick(len(echoOps))]
 				ct := ctrls[rr.Pick(len(ctrls))]
+				if rr.Pick(10) == 0 && ct.path != "tcp-refused" {
+					// the one request without a reply, in between (it changes nothing in the client: the others go on as before)
+					clients[rr.Pick(len(clients))].SetAddress(ct.serial, net.IPv4(10, 0, 0, byte(1+g)), net.IPv4(255, 255, 255, 0), net.IPv4(10, 0, 0, 254))
+					setAddressCalls.Add(1)
+				}
 				id := idCounter.Add(1)
 				if eo.idAt == "ProfileID" || eo.idAt == "Door" {
 					id = id&0xffffff00 | (1 + id%250)
@@ -397,6 +402,7 @@ func c08Plan(c *Ctx, planNo int, T time.Duration) {
 		return
 	}
 	c.Res.Max("max:in-flight-calls", maxInflight.Load())
+	c.Res.Count("calls:set-address-in-between", setAddressCalls.Load())
 
 	// ---- judge
 	events := f.fm.Events()
